@@ -51,6 +51,9 @@ def cases(tier, seed):
             if tier == "thorough" or (n == 2 and (vi + seed) % 6 == 0):
                 for first in range(-1, n + 2):
                     out.append(dict(mode="tables", nsteps=n, variant=list(var), rows=[3], first_slot=first))
+    # beyond the lattice: tens of thousands of rows (one release time alone has more rows than fit in 15 or 16 bits)
+    for rev, cont in itertools.product([False, True], [False, True]):
+        out.append(dict(mode="big", rev=rev, cont=cont))
     return out
 
 
@@ -187,6 +190,10 @@ def run_table(table, nsteps, variant):
             return ("order" if same_set else "values", f"step {n}: new particles {got} expected {exp}"), "bad"
         if hatch is not None and hatch != exph:
             return ("values:time-column", f"step {n}: hatch {hatch} expected {exph}"), "bad"
+        if hatch is not None:  # release_time is declared as a state variable: it is the time of the release (the tick, in continuous mode)
+            rt = [np.datetime64(t, "s") for t in st.variables["release_time"][before:]]
+            if rt != [np.datetime64(world.iso(S0 + sgn * n * DT), "s")] * len(exp):
+                return ("values:release-time", f"step {n}: release_time of the new particles {rt} expected the time of this step {world.iso(S0 + sgn * n * DT)}"), "bad"
         if coords == "both":
             gl = list(zip(st["lon"][newmask].tolist(), st["lat"][newmask].tolist()))
             el = [(7.25 + table[i]["pos"], 61.5 - table[i]["pos"]) for i in sched[n]]
@@ -219,7 +226,57 @@ def run_tables(case):
                        sample=dict(nsteps=case["nsteps"], variant=variant, example_table=[dict(slot=0, mult=2, pos=0), dict(slot=case["nsteps"], mult=1, pos=1)]))
 
 
+def run_big(case):
+    """Three release times with 20000 + 45000 + 7 rows (discrete), or 11 rows released at 3300 ticks (continuous): counts and row order per step."""
+    from ladim.release import ParticleReleaser
+    from ladim.state import State
+    from ladim.timekeeper import TimeKeeper
+    from mc.drive import PLUG
+    import importlib.util
+
+    rev, cont = case["rev"], case["cont"]
+    sgn = -1 if rev else 1
+    spec = importlib.util.spec_from_file_location("agrid_c04b", PLUG / "agrid.py")
+    ag = importlib.util.module_from_spec(spec)
+    spec.loader.exec_module(ag)
+    if cont:
+        nsteps, blocks = 3300, [(0, 11)]
+    else:
+        nsteps, blocks = 4, [(0, 20000), (1, 45000), (3, 7)]
+    lines, k = ["release_time X Y Z farmid"], 0
+    exp = {}
+    for slot, nrows in blocks:
+        t = world.iso(S0 + sgn * slot * DT)
+        exp[slot] = list(range(k, k + nrows))
+        lines += [f"{t} {3.0 + (i % 8) * 0.25} 4.5 5.0 {i}" for i in range(k, k + nrows)]
+        k += nrows
+    st = State(instance_variables=dict(farmid=int))
+    tk = TimeKeeper(start=world.iso(S0), stop=world.iso(S0 + sgn * nsteps * DT), dt=DT, time_reversal=rev)
+    kw = dict(continuous=True, release_frequency=DT) if cont else {}
+    viols = []
+    try:
+        rel = ParticleReleaser(dict(time=tk, state=st, grid=ag.Grid()), StringIO("\n".join(lines) + "\n"), **kw)
+        for n in range(nsteps):
+            before = int(st.npid)
+            tk.update()
+            rel.update()
+            got = st.farmid[st.pid >= before].tolist()
+            want = exp[0] if cont else exp.get(n, [])
+            if got != want:
+                what = f"{len(got)} new particles expected {len(want)}" if len(got) != len(want) else f"row order differs first at {next(i for i, (a, b) in enumerate(zip(got, want)) if a != b)}"
+                viols.append(util.viol("big:count" if len(got) != len(want) else "big:order", f"{case} step {n}: {what}", case))
+                break
+            if cont and n % 50:
+                st["alive"][:] = False  # keep the state small: the property is about what is released at each tick
+                st.compactify()
+    except Exception as e:
+        viols.append(util.viol("big:exception", f"{case}: {e!r}", case))
+    return util.result(evals=nsteps, nontrivial=nsteps, viol=viols, outcomes=[["big", len(viols)]], states=nsteps, transitions=nsteps, sample=dict(case))
+
+
 def run_case(case):
+    if case["mode"] == "big":
+        return run_big(case)
     if case["mode"] == "tables":
         return run_tables(case)
     if case["mode"] == "one":
